@@ -131,8 +131,24 @@ def _cases(draw):
         d = min(d, 10 ** 9)
     lim = min((1 << 63) - 1, YEAR9999 * n // d)
     lim = max(lim, 1)
-    mode = draw(st.integers(0, 5))
-    if mode == 0:
+    mode = draw(st.integers(0, 7))
+    if mode >= 6:
+        # picosecond part within c/n of an integer: rem*10^12 = -c (mod n), solved with modular inverses
+        import math
+        n = draw(st.sampled_from(BIG + [2 ** 32 - 1, 2 ** 31 - 1, 2 ** 30 + 3, 2 ** 27 + 29, 123456789, 3999999979]))
+        while math.gcd(n, 10) != 1:
+            n -= 1
+        d = draw(st.sampled_from([1, 1, 3, 7, 1001, 999999937]))
+        while math.gcd(d, n) != 1:
+            d += 1
+        if n * d >= 1 << 64:
+            d = 1
+        lim = max(1, min((1 << 63) - 1, YEAR9999 * n // d))
+        c = draw(st.sampled_from([0, 1, 1, 2, 3, 5, 17, 100, 1000, -1, -2, -7]))
+        rem = (-c * pow(PS % n, -1, n)) % n
+        k = (rem * pow(d, -1, n)) % n + draw(st.integers(0, max(0, (lim - 1) // n - 1))) * n
+        k = min(k, lim - 1)
+    elif mode == 0:
         k = draw(st.integers(0, lim - 1))
     elif mode == 1:
         q = draw(st.integers(0, max(0, (lim - 1) // n)))
@@ -195,6 +211,8 @@ def run_case(case):
 
 
 def shrink_candidates(case):
+    if "fuzz_hex" in case:
+        return
     for key in ("k", "s", "ps", "n", "d"):
         v = case[key]
         lo = 1 if key in ("n", "d") else 0
